@@ -1633,7 +1633,48 @@ func extractConnLegacy(repo, root string) error {
 	// Merge methods of the split requests: the first failed part fails the call
 	b.WriteString("/-- protocol/<api>/(*Response).Merge returns the error of the first failed part from inside its loop over the results -/\n")
 	b.WriteString("def strictMerges : List (String × Bool) := [")
-	for i, api := range []string{"listgroups", "describegroups", "describeconfigs"} {
+	// every package under protocol/ that defines a Merge method, list-offsets apart (its Merge keeps the parts that
+	// arrived and marks the lost ones: the C19 builder's Model/ListOffsets.lean) — a new Merge joins the list by itself
+	var mergeAPIs []string
+	if dirs, err := filepath.Glob(filepath.Join(repo, "protocol", "*")); err == nil {
+		for _, d := range dirs {
+			api := filepath.Base(d)
+			if api == "listoffsets" {
+				continue
+			}
+			files, _ := filepath.Glob(filepath.Join(d, "*.go"))
+			has := false
+			for _, fn := range files {
+				if strings.HasSuffix(fn, "_test.go") {
+					continue
+				}
+				if f, err := parser.ParseFile(token.NewFileSet(), fn, nil, 0); err == nil {
+					for _, dcl := range f.Decls {
+						if fd, ok := dcl.(*ast.FuncDecl); ok && fd.Recv != nil && fd.Name.Name == "Merge" {
+							has = true
+						}
+					}
+				}
+			}
+			if has {
+				mergeAPIs = append(mergeAPIs, api)
+			}
+		}
+	}
+	// the order the theorems and notes use: the three known ones first, anything new after them
+	sort.SliceStable(mergeAPIs, func(i, j int) bool {
+		rank := map[string]int{"listgroups": 0, "describegroups": 1, "describeconfigs": 2}
+		ri, oki := rank[mergeAPIs[i]]
+		rj, okj := rank[mergeAPIs[j]]
+		if !oki {
+			ri = 9
+		}
+		if !okj {
+			rj = 9
+		}
+		return ri < rj
+	})
+	for i, api := range mergeAPIs {
 		strict, err := mergeIsStrict(filepath.Join(repo, "protocol", api))
 		if err != nil {
 			return fmt.Errorf("untranslated: %v", err)
